@@ -115,8 +115,8 @@ int run_case(const uint16_t* d, size_t n, std::string* msg, bool fuzz_entry) {
     } catch (Failure& f) {
         rc = 1; g_stats.fail++;
         if (msg) *msg = f.msg + "\n  case: " + c.desc;
-        size_t keep = c.t.back ? n : std::min(n, c.t.pos);
-        write_file("fail.tape", d, keep * 2);
+        // the whole tape is kept: generators may consult exhausted(), so a truncated tape is a different case
+        write_file("fail.tape", d, n * 2);
         std::string m = f.msg + "\ncase: " + c.desc + "\n";
         write_file("fail.txt", m.data(), m.size());
     } catch (Discard& dd) {
